@@ -1,12 +1,17 @@
 """End-to-end theorems about the whole program as one Lean function (`TLX.Export.exportFile`, lean/TLX/Props/Export.lean).
 The function itself is tied to the real tool by harness/file_corr.py (output files compared byte for byte)."""
-MODULES = ["TLX.Props.Export"]
+MODULES = ["TLX.Props.Export", "TLX.Props.C01File"]
 P = "TLX.Props.Export."
 THEOREMS = [P + n for n in (
     "framesFrom_error_iff", "exportFrom_stages", "goodFrame_of", "export_wellformed",
     "export_ignores_prior_state", "export_is_function",
     "export_badOptions_iff", "export_abort_ingest_iff", "export_abort_write_iff", "export_total", "abort_kinds",
-    "export_demux_tls", "export_demux_frames")]
+    "export_demux_tls", "export_demux_frames")] + ["TLX.Props.C01File." + n for n in (
+    # C01 from the bytes of the capture file and the key-log text to the bytes of the output file
+    "ingest_of_capture", "session_of_items", "file_of_frames", "export_of_session",
+    "tls12_file_exact", "tls13_file_exact", "exact_frames_parse",
+    "dissect_seg", "capOk_of_described", "flow_filter", "dirSegs_flow", "roles_of_flow", "capture_read",
+    "described_session", "tls12_capture_exact", "tls13_capture_exact", "Ex.tls12_file_instance")]
 # lemmas the theorems rest on (audited with them: same import closure)
 LEMMAS = ["TLX.Lemmas.DissectAddr.dissect_addr_lengths", "TLX.Lemmas.Export.itemsWith_good",
           "TLX.Lemmas.Export.runItems_good", "TLX.Lemmas.Export.framesFrom_wf"]
